@@ -8,11 +8,13 @@ def run(cx):
     M.selection(cx)
     M.transform_assembly(cx)
     M.fit_model(cx)
+    M.no_module_state(cx, ('mef',), extra=('plot._LogicleTransform.__init__', 'plot._LogicleTransform.transform_non_affine', 'plot._InterpolatedInverseTransform.__init__', 'plot._InterpolatedInverseTransform.transform_non_affine'))
     cx.decided += [
         'groups are formed by label equality (one label per event), ordered by increasing squared distance of their mean to the origin before values are paired, and never re-ordered afterwards',
         'the exclusion mask of a channel combines the selection with the unknown values of THAT channel only; RFI and MEF selections use the same mask',
         'each accumulator receives exactly one entry per calibrated channel; intermediate results reported are the ones computed',
         'clustering initialisation (quantile slices, regularised covariances on every path), label sampling; selection thresholds at 1.5%/98.5% of the scaled range with strict comparisons',
         'only np.random.choice (legacy global generator) and an unseeded GaussianMixture are used: reproducible under np.random.seed',
+        'no function of FlowCal.mef (nor the logicle scaling it uses) writes module-level state: a calibration cannot depend on earlier calls',
     ]
     cx.not_decided += ['clustering quality, grouping by generating subpopulation, the 10% bound (numerical behaviour of EM and L-BFGS-B)']
